@@ -1,6 +1,7 @@
 (* C02 — Each operation's frame encodes exactly that operation and the caller's arguments *)
 Require Import AS.Base.Prelude AS.Base.Hex AS.Base.Template AS.Base.Exchange AS.Gen.Extracted AS.Spec.Frame AS.Spec.FrameLayout
-  AS.Spec.FrameSpec AS.Model.DeviceTools AS.Model.Api AS.Proofs.LayoutMatch AS.Proofs.SpecFrames AS.Proofs.SpecOps.
+  AS.Spec.FrameSpec AS.Model.DeviceTools AS.Model.Api AS.Proofs.LayoutMatch AS.Proofs.SpecFrames AS.Proofs.SpecOps
+  AS.Model.ScheduleTools AS.Proofs.CreateExact.
 Local Open Scope N_scope.
 
 (* The Spec (Spec/FrameLayout.v, Spec/FrameSpec.v): an independently written byte layout per operation and the declared
@@ -54,6 +55,14 @@ Proof. exact (stop_exact idb keyb now r0 rest Lid Hid Hkey Hnow Hr0 Lr0). Qed.
 Theorem C02_set_position p :
   outcome_is idb keyb now rest (Exchange.run (set_position_op false c now p) (r0 :: rest)) (spec_set_position h p).
 Proof. exact (set_position_exact idb keyb now r0 rest Lid Hid Hkey Hnow Hr0 Lr0 p). Qed.
+
+(* create_schedule with [base] = epoch second of today's local midnight (zones are C11's subject): both clock strings in
+   H:MM / HH:MM form (else it raises), the days as a set or a duplicate-free sequence (duplicates raise) encoded as their
+   bit mask (0 for none), start and end as LE32 of base + 60 x minutes (outside 32 bits raises), in the 11-byte record
+   01 mask 01 start end placed in the create frame *)
+Theorem C02_create_schedule base st en d l : days_list d l -> (forall x, In x l -> (x < n_days)%nat) ->
+  outcome_is idb keyb now rest (Exchange.run (create_schedule_op false c now base st en d) (r0 :: rest)) (spec_create h base st en l).
+Proof. exact (create_exact idb keyb now r0 rest Lid Hid Hkey Hnow Hr0 Lr0 base st en d l). Qed.
 End C02.
 Print Assumptions C02_control_device.
 Print Assumptions C02_set_auto_shutdown.
@@ -62,6 +71,7 @@ Print Assumptions C02_get_schedules.
 Print Assumptions C02_delete_schedule.
 Print Assumptions C02_stop.
 Print Assumptions C02_set_position.
+Print Assumptions C02_create_schedule.
 
 (* the schedule record and the remaining frames (create_schedule, the state queries, thermostat frames): every packet
    template of the sources equals, piece by piece, the independent layout; the record encoders are C11's and C12's theorems *)
